@@ -338,4 +338,228 @@ example : subAxes [0] [([1, 3], 1), ([2, 3], 1), ([1, 4], 1)] = [([1], 2), ([2],
 example : Hist.mass [([5], 2), ([6], 1)] ≠ 0 := by decide
 example : vectorFill 4 [7, 7] [1, 3, 3] = [7, 8, 0, 2] ∧ vectorFill 2 [1, 1, 5] [0] = [2, 1, 5] := by decide
 
+/-! ## deepening round 3: the query / key members of the histogram class -/
+
+/-! ### histogram::equals -/
+
+/-- `h.equals(o)` holds exactly when the dimensions agree and every bin of `o` is present in `h` with the same count
+    (stated on the maps only: the iteration order of the unordered_map cannot matter) -/
+theorem C19_equals_spec (d : Bool) (h o : Hist) :
+    equalsH d h o = true ↔ d = true ∧ ∀ k ∈ o.keys, h.find? k = some (o.get k) := by
+  unfold equalsH
+  rw [equals_foldl]
+  simp [Hist.keys]
+
+/-- equality is order-independent: histograms that agree as maps give the same answer -/
+theorem C19_equals_map_invariant (d : Bool) (h h' o o' : Hist) (hh : ∀ k, h.find? k = h'.find? k)
+    (hk : ∀ k, k ∈ o.keys ↔ k ∈ o'.keys) (hg : ∀ k, o.get k = o'.get k) :
+    equalsH d h o = equalsH d h' o' := by
+  have : equalsH d h o = true ↔ equalsH d h' o' = true := by
+    rw [C19_equals_spec, C19_equals_spec]
+    constructor
+    · rintro ⟨hd, ha⟩; exact ⟨hd, fun k hk' => by rw [← hh, ← hg]; exact ha k ((hk k).mpr hk')⟩
+    · rintro ⟨hd, ha⟩; exact ⟨hd, fun k hk' => by rw [hh, hg]; exact ha k ((hk k).mp hk')⟩
+  cases h1 : equalsH d h o <;> cases h2 : equalsH d h' o' <;> simp_all
+
+example : equalsH true [([1], 2), ([3], 1)] [([3], 1), ([1], 2)] = true := by decide
+
+/-- a histogram equals itself -/
+theorem C19_equals_refl (h : Hist) : equalsH true h h = true := by
+  rw [C19_equals_spec]
+  exact ⟨rfl, fun k hk => find?_of_mem h k hk⟩
+
+/-- equal answers imply equal counts on every bin of `o` -/
+theorem C19_equals_sound (d : Bool) (h o : Hist) (he : equalsH d h o = true) (k : Key) (hk : k ∈ o.keys) :
+    h.get k = o.get k :=
+  find?_eq_some_get h k _ (((C19_equals_spec d h o).mp he).2 k hk)
+
+/-- as coded the test is one-sided: bins of `*this` that `other` lacks are not looked at (observation, outside the property) -/
+theorem C19_equals_one_sided_witness :
+    equalsH true [([1], 1), ([2], 1)] [([1], 1)] = true ∧ equalsH true [([1], 1)] [([1], 1), ([2], 1)] = false := by decide
+
+/-! ### min_key / max_key / nearest_key -/
+
+/-- min_key is a key of the histogram and no key is (tuple-)smaller -/
+theorem C19_min_key_attained_least (h : Hist) (hne : h ≠ []) :
+    minKey h ∈ h.keys ∧ ∀ k ∈ h.keys, keyLt k (minKey h) = false := by
+  cases h with
+  | nil => exact absurd rfl hne
+  | cons kv rest =>
+    simp only [minKey]
+    constructor
+    · rcases foldl_least_mem keyLt (kv :: rest) kv.1 with e | e
+      · rw [e]; simp [Hist.keys]
+      · exact e
+    · intro k hk
+      exact foldl_least_inv keyLt keyLt_irrefl keyLt_trans (kv :: rest) kv.1 [] (by simp) k (by simpa [Hist.keys] using hk)
+
+/-- max_key is a key of the histogram and no key is (tuple-)greater -/
+theorem C19_max_key_attained_greatest (h : Hist) (hne : h ≠ []) :
+    maxKey h ∈ h.keys ∧ ∀ k ∈ h.keys, keyLt (maxKey h) k = false := by
+  cases h with
+  | nil => exact absurd rfl hne
+  | cons kv rest =>
+    simp only [maxKey]
+    constructor
+    · rcases foldl_least_mem (fun a b => keyLt b a) (kv :: rest) kv.1 with e | e
+      · rw [e]; simp [Hist.keys]
+      · exact e
+    · intro k hk
+      exact foldl_least_inv (fun a b => keyLt b a) keyLt_irrefl (fun a b c h1 h2 => keyLt_trans c b a h2 h1)
+        (kv :: rest) kv.1 [] (by simp) k (by simpa [Hist.keys] using hk)
+
+example : minKey [([2, 3], 1), ([1, 5], 4), ([1, 7], 2)] = [1, 5] ∧ maxKey [([2, 3], 1), ([1, 5], 4), ([1, 7], 2)] = [2, 3] := by decide
+
+/-- min_key does not depend on the iteration order: two histograms with the same key set (tuples of one size) have the same min_key -/
+theorem C19_min_key_order_independent (h h' : Hist) (n : Nat) (hne : h ≠ []) (hk : ∀ k, k ∈ h.keys ↔ k ∈ h'.keys)
+    (hlen : ∀ k ∈ h.keys, k.length = n) : minKey h = minKey h' := by
+  have hne' : h' ≠ [] := by
+    intro e; subst e
+    cases h with
+    | nil => exact hne rfl
+    | cons kv rest => have := (hk kv.1).mp (by simp [Hist.keys]); simp [Hist.keys] at this
+  obtain ⟨m1, l1⟩ := C19_min_key_attained_least h hne
+  obtain ⟨m2, l2⟩ := C19_min_key_attained_least h' hne'
+  apply keyLt_total
+  · rw [hlen _ m1, hlen _ ((hk _).mpr m2)]
+  · exact l2 _ ((hk _).mp m1)
+  · exact l1 _ ((hk _).mpr m2)
+
+theorem C19_max_key_order_independent (h h' : Hist) (n : Nat) (hne : h ≠ []) (hk : ∀ k, k ∈ h.keys ↔ k ∈ h'.keys)
+    (hlen : ∀ k ∈ h.keys, k.length = n) : maxKey h = maxKey h' := by
+  have hne' : h' ≠ [] := by
+    intro e; subst e
+    cases h with
+    | nil => exact hne rfl
+    | cons kv rest => have := (hk kv.1).mp (by simp [Hist.keys]); simp [Hist.keys] at this
+  obtain ⟨m1, l1⟩ := C19_max_key_attained_greatest h hne
+  obtain ⟨m2, l2⟩ := C19_max_key_attained_greatest h' hne'
+  apply keyLt_total
+  · rw [hlen _ m1, hlen _ ((hk _).mpr m2)]
+  · exact l1 _ ((hk _).mpr m2)
+  · exact l2 _ ((hk _).mp m1)
+
+example : minKey [([2, 3], 1), ([1, 5], 4)] = minKey [([1, 5], 9), ([2, 3], 0)] := by decide
+
+/-- the order is the tuple order (lexicographic), NOT a component-wise bound: on axis 1 the min_key (1,5) is above the key (2,3) -/
+theorem C19_min_key_not_componentwise_witness :
+    minKey [([2, 3], 1), ([1, 5], 4)] = [1, 5] ∧ tupleCompare [1, 5] [2, 3] = false := by decide
+
+/-- for 1-D histograms min_key / max_key are the numeric bounds of the keys -/
+theorem C19_min_max_key_1d (h : Hist) (hne : h ≠ []) (x : Int) (hx : [x] ∈ h.keys) :
+    (∀ m, minKey h = [m] → m ≤ x) ∧ (∀ m, maxKey h = [m] → x ≤ m) := by
+  constructor
+  · intro m hm
+    have := (C19_min_key_attained_least h hne).2 [x] hx
+    rw [hm] at this
+    simp only [keyLt] at this
+    by_cases c : x < m
+    · simp [c] at this
+    · omega
+  · intro m hm
+    have := (C19_max_key_attained_greatest h hne).2 [x] hx
+    rw [hm] at this
+    simp only [keyLt] at this
+    by_cases c : m < x
+    · simp [c] at this
+    · omega
+
+/-- nearest_key: `k` itself when it is a key; otherwise, if no key is ≤ k (tuple order) again `k`, else the greatest key ≤ k -/
+theorem C19_nearest_key_spec (h : Hist) (k : Key) :
+    (k ∈ h.keys → nearestKey h k = k) ∧
+    (k ∉ h.keys → (∀ u ∈ h.keys, keyLt k u = true) → nearestKey h k = k) ∧
+    (k ∉ h.keys → (∃ u ∈ h.keys, keyLt k u = false) →
+        nearestKey h k ∈ h.keys ∧ keyLt k (nearestKey h k) = false ∧
+        ∀ u ∈ h.keys, keyLt k u = false → keyLt (nearestKey h k) u = false) := by
+  have inv := nearest_inv k h (true, k) [] (by simp [NearInv])
+  simp only [List.nil_append] at inv
+  refine ⟨?_, ?_, ?_⟩
+  · intro hk
+    simp [nearestKey, (find?_isSome_iff h k).mpr hk]
+  · intro hk hall
+    have hs : (h.find? k).isSome = false := by
+      cases e : (h.find? k).isSome with
+      | false => rfl
+      | true => exact absurd ((find?_isSome_iff h k).mp e) hk
+    simp only [nearestKey, hs, Bool.false_eq_true, if_false]
+    cases ho : (h.foldl (nearestStep k) (true, k)).1 with
+    | true => exact (inv.1 ho).1
+    | false =>
+      obtain ⟨hm, hle, _⟩ := inv.2 ho
+      rw [hall _ hm] at hle; exact absurd hle (by simp)
+  · intro hk ⟨u, hu, hku⟩
+    have hs : (h.find? k).isSome = false := by
+      cases e : (h.find? k).isSome with
+      | false => rfl
+      | true => exact absurd ((find?_isSome_iff h k).mp e) hk
+    simp only [nearestKey, hs, Bool.false_eq_true, if_false]
+    cases ho : (h.foldl (nearestStep k) (true, k)).1 with
+    | true =>
+      have := (inv.1 ho).2 u hu
+      rw [hku] at this; exact absurd this (by simp)
+    | false => exact inv.2 ho
+
+example : nearestKey [([1], 1), ([7], 1), ([4], 2)] [6] = [4] ∧ nearestKey [([1], 1), ([7], 1)] [0] = [0]
+    ∧ nearestKey [([1, 9], 1), ([2, 0], 1)] [1, 20] = [1, 9] := by decide
+
+/-! ### merging -/
+
+/-- merging adds the counts per bin -/
+theorem C19_merge_get (dst src : Hist) (hn : src.keys.Nodup) (k : Key) :
+    (merge dst src).get k = dst.get k + src.get k := by
+  rw [merge_get, sum_filter_key_eq_get src hn]
+
+/-- merging adds the masses -/
+theorem C19_merge_mass (dst src : Hist) : (merge dst src).mass = dst.mass + src.mass := merge_mass dst src
+
+example : (merge [([1], 2), ([2], 1)] [([2], 4), ([5], 1)]).get [2] = 5 ∧ (merge [([1], 2), ([2], 1)] [([2], 4), ([5], 1)]).mass = 8 := by decide
+
+/-- an accumulating fill is the merge of the previous histogram with the histogram of the new image alone -/
+theorem C19_fill_accumulate_is_merge (a : FillArgs) (h : Hist) (pixels : List (List Int × Bool)) (k : Key) :
+    (fill a h pixels).get k = (merge h (fill a [] pixels)).get k := by
+  rw [C19_merge_get _ _ (C19_nodup a [] pixels (by simp [Hist.keys])), C19_fill_counts, C19_fill_counts]
+  simp [Hist.get]
+
+/-- filling from two images one after the other (accumulate) is filling from their concatenation -/
+theorem C19_fill_append (a : FillArgs) (h : Hist) (p1 p2 : List (List Int × Bool)) :
+    fill a (fill a h p1) p2 = fill a h (p1 ++ p2) := by
+  simp [fill, List.foldl_append]
+
+/-! ### key construction -/
+
+/-- the cast to the key type is the identity on values of that type -/
+theorem C19_key_cast_exact (t : KTy) (x : Int) (h1 : t.lo ≤ x) (h2 : x ≤ t.hi) : t.cast x = x := by
+  cases t <;> simp only [KTy.lo, KTy.hi] at h1 h2 <;> simp only [KTy.cast] <;> omega
+
+/-- in general it lands in the type's range and is congruent to the value modulo 2^bits -/
+theorem C19_key_cast_congruent (t : KTy) (x : Int) :
+    t.lo ≤ t.cast x ∧ t.cast x ≤ t.hi ∧ (t.cast x - x) % (2 ^ t.bits) = 0 := by
+  cases t <;> simp only [KTy.lo, KTy.hi, KTy.cast, KTy.bits] <;> omega
+
+/-- key_from_pixel on a histogram<int,…>: exactly the selected channels (what `fill` relies on, `keyOf` with bin width 1 scaling aside) -/
+theorem C19_key_from_pixel_int (sel : List Nat) (px : List Int) (n : Nat) (hs : sel.length = n)
+    (hr : ∀ i ∈ sel, -2147483648 ≤ px.getD i 0 ∧ px.getD i 0 ≤ 2147483647) :
+    keyFromPixel (List.replicate n .i32) sel px = if sel.isEmpty then [] else sel.map (fun i => px.getD i 0) := by
+  subst hs
+  induction sel with
+  | nil => simp [keyFromPixel]
+  | cons i rest ih =>
+    simp only [keyFromPixel, List.isEmpty_cons, Bool.false_eq_true, if_false, List.length_cons, List.replicate_succ, List.map_cons, List.zip_cons_cons]
+    have hi := hr i (by simp)
+    rw [C19_key_cast_exact .i32 _ hi.1 hi.2]
+    congr 1
+    cases rest with
+    | nil => simp
+    | cons j rest' =>
+      have := ih (fun i hi => hr i (by simp [hi]))
+      simpa [keyFromPixel] using this
+
+/-- is_tuple_compatible: same size and every component convertible -/
+theorem C19_is_tuple_compatible_iff (dim : Nat) (conv : List Bool) :
+    isTupleCompatible dim conv = true ↔ conv.length = dim ∧ ∀ b ∈ conv, b = true := by
+  unfold isTupleCompatible
+  by_cases e : conv.length = dim
+  · subst e; simp
+  · simp [e]
+
 end GilVerif.Props.C19
